@@ -387,6 +387,39 @@ class Env:
         self.reach_checked += 1
         self.results.append(dict(key=key + ':reachable', verdict='holds' if r == 'sat' else 'vacuous(%s)' % r, s=0, path='', canary=False))
 
+    def claim_no_singularity(self, key, since=0, limit=4000):
+        """division-by-zero reachability: every division executed since `since` recorded "denominator != 0" as a side
+        condition (i.e. it was ASSUMED). Here each of them is turned into an obligation under the input assumptions and the
+        path condition only; a denominator that can vanish yields a model that is replayed on the real code."""
+        if not self.sym:
+            return
+        ctx = self.ctx
+        conds = []; seen = set()
+        for c in ctx.side[since:]:
+            if c.get_id() not in seen:
+                seen.add(c.get_id()); conds.append(c)
+        sv = z3.Solver(); sv.set('timeout', 20000); sv.add(*ctx.assumes); sv.add(*ctx.pc); sv.add(*ctx.axioms)
+        bad = None; unknown = 0
+        for c in conds[:limit]:
+            sv.push(); sv.add(z3.Not(c)); r = str(sv.check()); sv.pop()
+            self.stats['queries'] += 1
+            if r == 'sat':
+                bad = c; break
+            if r != 'unsat':
+                unknown += 1
+        saved = (ctx.side, ctx.axioms)
+        ctx.side = []
+        try:
+            if bad is not None:
+                self.claim(key, SB(bad))
+            elif unknown:
+                self.results.append(dict(key=key, verdict='unknown', s=0, path='', canary=False))
+            else:
+                self.claim_true(key, True)
+        finally:
+            ctx.side, ctx.axioms = saved
+        self.notes.append('%s: %d denominators examined' % (key, min(len(conds), limit)))
+
     def can_be_zero(self, key, expr, extra=None):
         """division-by-zero reachability: may expr vanish under the precondition? claim: it may not."""
         if self.sym:
